@@ -249,6 +249,8 @@ class Replayer:
                     raise Mismatch("value", "object %d element %d: got %r, spec %s" % (k + 1, n, v, to_frac(q)))
             if so.get("real") is False and not numpy.iscomplexobj(d):
                 raise Mismatch("dtype", "object %d: the imaginary part was dropped (dtype %s)" % (k + 1, d.dtype))
+            if so.get("ct") is True and not numpy.iscomplexobj(d):
+                raise Mismatch("dtype", "object %d: NumPy's promotion gives a complex-typed result, got dtype %s" % (k + 1, d.dtype))
             if k in self.noalias:
                 continue
             ad = addresses(d)
